@@ -2,6 +2,7 @@
 obligations, discharge them, and return a plain-data report (safe to send across processes)."""
 from __future__ import annotations
 
+import shutil
 import subprocess
 import tempfile
 import time
@@ -379,10 +380,33 @@ def discharge(ob: Obligation, rlimit=Z3_RLIMIT, use_cvc5=True, light=False):
     backend_used = "z3"
     hyp_ids = {h.get_id() for h in ob.hyps}
     for full_hyps, goal in parts:
+        seq_tried = False
         # stage 0: the goal is literally one of the hypotheses (unchanged invariant conjunct)
         if goal.get_id() in hyp_ids or any(goal.get_id() == h.get_id() for h in full_hyps[len(ob.hyps):]):
             backend_used = backend_used if backend_used != "z3" else "z3"
             continue
+        if _mentions_seq(goal):
+            # byte-sequence goals: external solvers only (hard time limits; z3's in-process sequence solver can ignore
+            # its resource limit): cvc5 first, then the z3 binary
+            s0 = z3.Solver()
+            for h in full_hyps:
+                s0.add(h)
+            s0.add(z3.Not(goal))
+            for ax in axioms_for(list(full_hyps) + [goal]):
+                s0.add(ax)
+            smt2 = s0.to_smt2()
+            v, why = run_cvc5(smt2, timeout_s=25) if use_cvc5 else ("unknown", "")
+            if v == "unsat":
+                backend_used = "cvc5"
+                continue
+            v2, why2 = ("unknown", "") if light else run_z3_cli(smt2, timeout_s=20)
+            if v2 == "unsat":
+                backend_used = "z3-cli"
+                continue
+            if "sat" in (v, v2):
+                return "sat", "cvc5" if v == "sat" else "z3-cli", time.time() - t0, {
+                    "_note": "external solver answered sat; no model extracted", "_subgoal": str(goal)[:300]}
+            return "unknown", "cvc5+z3-cli", time.time() - t0, {"_reason": f"cvc5: {why}; z3: {why2}", "_subgoal": str(goal)[:300]}
         # stage 1: cone-of-influence reduced query (fast; proves most goals, gives clean counter-models)
         reduced = cone_of_influence(full_hyps, goal)
         reduced_model = None
@@ -407,10 +431,23 @@ def discharge(ob: Obligation, rlimit=Z3_RLIMIT, use_cvc5=True, light=False):
                     # quantified hypotheses were left out: only the full query decides (stage 2); keep the model
                     m["_note"] = "counter-model of the query without its quantified hypotheses"
                     reduced_model = m
+        # sequence (byte string) goals: cvc5 decides the slicing/concatenation lemmas that z3's seq solver does not
+        if use_cvc5 and not light and _mentions_seq(goal):
+            s0 = z3.Solver()
+            for h in full_hyps:
+                s0.add(h)
+            s0.add(z3.Not(goal))
+            for ax in axioms_for(list(full_hyps) + [goal]):
+                s0.add(ax)
+            v, why = run_cvc5(s0.to_smt2(), timeout_s=25)
+            if v == "unsat":
+                backend_used = "cvc5"
+                continue
+            seq_tried = True
         # stage 2: all hypotheses, solver portfolio
         verdict = None
         last = None
-        for cfg, rl in (PORTFOLIO[:2] if light else PORTFOLIO):
+        for cfg, rl in (PORTFOLIO[:2] if (light or _mentions_seq(goal)) else PORTFOLIO):
             r, s = _z3_check(full_hyps, goal, cfg, rl, ob.hints)
             last = s
             if r == z3.unsat:
@@ -425,7 +462,7 @@ def discharge(ob: Obligation, rlimit=Z3_RLIMIT, use_cvc5=True, light=False):
         if verdict == "unsat":
             continue
         reason = last.reason_unknown()
-        if use_cvc5 and reduced_model is None and not light:
+        if use_cvc5 and reduced_model is None and not light and not seq_tried:
             v, why = run_cvc5(last.to_smt2())
             if v == "unsat":
                 backend_used = "z3+cvc5"
@@ -501,6 +538,52 @@ def discharge_batches(obligations, rlimit=1_500_000):
             if r == z3.unsat:
                 out[id(o)] = time.time() - t0
     return out
+
+
+def run_z3_cli(smt2: str, timeout_s=20):
+    exe = shutil.which("z3-new") or "/usr/bin/z3"
+    with tempfile.NamedTemporaryFile("w", suffix=".smt2", delete=False, dir=os.environ.get("PYVC_WORK", None)) as fh:
+        fh.write(smt2)
+        path = fh.name
+    try:
+        p = subprocess.run([exe, f"-T:{timeout_s}", path], capture_output=True, text=True, timeout=timeout_s + 15)
+        out = p.stdout.strip().splitlines()
+        v = out[0].strip() if out else "unknown"
+        return (v, "") if v in ("sat", "unsat") else ("unknown", (p.stdout + p.stderr).strip()[:120])
+    except subprocess.TimeoutExpired:
+        return "unknown", "z3 timeout"
+    finally:
+        try:
+            os.unlink(path)
+        except OSError:
+            pass
+
+
+_seq_cache = {}
+
+
+def _mentions_seq(e):
+    i = e.get_id()
+    if i in _seq_cache:
+        return _seq_cache[i][1]
+    seen, stack, found = set(), [e], False
+    while stack and not found:
+        x = stack.pop()
+        if x.get_id() in seen:
+            continue
+        seen.add(x.get_id())
+        try:
+            if z3.is_seq(x):
+                found = True
+                break
+        except Exception:
+            pass
+        if z3.is_quantifier(x):
+            stack.append(x.body())
+        elif z3.is_app(x):
+            stack.extend(x.children())
+    _seq_cache[i] = (e, found)
+    return found
 
 
 def run_cvc5(smt2: str, timeout_s=60):
